@@ -673,6 +673,13 @@ class Interp(object):
         if self.ctx.branch(y > 0, 'divisor>0'):
           q = x / y
           r = x % y
+          if not z3.is_int_value(y):
+            # true facts about floor division by a symbolic positive divisor near the origin
+            # (spares the solver non-linear reasoning in the common wrap-around cases)
+            self.ctx.assume(z3.Implies(z3.And(0 <= x, x < y), z3.And(r == x, q == 0)))
+            self.ctx.assume(z3.Implies(z3.And(y <= x, x < 2 * y), z3.And(r == x - y, q == 1)))
+            self.ctx.assume(z3.Implies(z3.And(-y <= x, x < 0), z3.And(r == x + y, q == -1)))
+            self.ctx.assume(z3.And(0 <= r, r < y))
         else:
           # y < 0: floor(x/y) = floor((-x)/(-y)); Euclidean div with a positive divisor is floor
           q = (-x) / (-y)
